@@ -1527,6 +1527,8 @@ class Interp:
             out.tags = out.tags | {"square-of"}
         if l.kind == "set" or r.kind == "set":
             out.tags = out.tags | ret_tags(l, r)        # set algebra keeps the provenance of its operands
+        if l.kind in ("int", "float") and r.kind in ("int", "float") and out.kind in ("int", "float") and not out.has_const():
+            out.tags = out.tags | ret_tags(l, r)      # arithmetic on counts keeps where the counts came from
         oc = {t for t in (l.tags | r.tags) if t == ("ret", "<open-chain>")}
         if oc and out.kind in ("arr", "unknown", "float"):
             out.tags = out.tags | oc
@@ -1652,8 +1654,10 @@ class Interp:
             # array * scalar factor (either order): remember the factor for closed-form rules
             if l.kind in ("arr", "unknown") and r.kind in ("float", "int") and r.sym is not None:
                 extra = ("factor", r)
+                self.emit(st, "scaled", node, array=l, factor=r)
             elif r.kind in ("arr", "unknown") and l.kind in ("float", "int") and l.sym is not None:
                 extra = ("factor", l)
+                self.emit(st, "scaled", node, array=r, factor=l)
         if isinstance(op, ast.Sub) and l.obj is None:
             # `target - <current centroid>`: the displacement that moves the centroid onto `target`
             cen = {loc[0] for loc in r.al if loc[1] == "_centroid"} | \
@@ -2080,7 +2084,8 @@ class Interp:
             if not r.has_const():
                 extra_t = frozenset([("ret", self.np.canonical(f.ext))]) | (
                     ret_tags(*args) if f.ext.startswith("builtins.") or f.ext.rsplit(".", 1)[-1] in
-                    ("all", "any", "abs", "isclose", "allclose") else frozenset())
+                    ("all", "any", "abs", "isclose", "allclose", "setdiff1d", "isin", "in1d", "intersect1d", "union1d", "arange",
+                     "count_nonzero", "flatnonzero", "size", "shape") else frozenset())
                 r.tags = r.tags | extra_t
                 if r.items is not None:
                     r.items = tuple(i.copy(tags=i.tags | extra_t) if not i.has_const() else i for i in r.items)
